@@ -152,20 +152,19 @@ theorem sqrt_pow_eq_rpow (x : ℝ) (hx : 0 ≤ x) (m2 : ℕ) : (Real.sqrt x)^m2 
   rw [Real.sqrt_eq_rpow, ← Real.rpow_natCast, ← Real.rpow_mul hx]
   congr 1; ring
 
-/-- **Piece bound**: from an accepted certificate to a bound that holds for *every* real `x` in the
-knot interval `[klo, khi]`:  `|p(x) − x^(m2/2)| ≤ Bq`. -/
-theorem piece_bound (cs : List ℚ) (m2 D P : ℕ) (C : List Int) (B sl : Int) (rest : List Int)
-    (hne : rest ≠ []) (klo khi Bq : ℚ)
+/-- the bridge from a bound on the scaled integer polynomial over `[sl, sh]` (in `s = √x · 2^D`) to the bound on the piece -/
+theorem piece_bound_of_range (cs : List ℚ) (m2 D P : ℕ) (C : List Int) (B sl sh : Int)
+    (klo khi Bq : ℚ)
     (hscale : scaleOK D P (gOf cs m2) C = true)
-    (hcert : checkAll C B (sl :: rest) = true)
+    (hrange : ∀ s : ℝ, (sl : ℝ) ≤ s → s ≤ (sh : ℝ) → |evalR C s| ≤ (B : ℝ))
     (hsl0 : 0 ≤ sl) (hsl : ((sl : ℚ))^2 ≤ klo * 4^D)
-    (hsh0 : 0 ≤ rest.getLast hne) (hsh : khi * 4^D ≤ ((rest.getLast hne : Int) : ℚ)^2)
+    (hsh0 : 0 ≤ sh) (hsh : khi * 4^D ≤ ((sh : Int) : ℚ)^2)
     (hB : (B : ℚ) ≤ Bq * 2^(P + ((gOf cs m2).length - 1) * D))
     (x : ℝ) (hx1 : (klo : ℝ) ≤ x) (hx2 : x ≤ (khi : ℝ)) :
     |evalQ cs x - x ^ ((m2 : ℝ) / 2)| ≤ (Bq : ℝ) := by
   -- reals
   have hsl' : ((sl : ℝ))^2 ≤ (klo : ℝ) * 4^D := by exact_mod_cast hsl
-  have hsh' : (khi : ℝ) * 4^D ≤ ((rest.getLast hne : Int) : ℝ)^2 := by exact_mod_cast hsh
+  have hsh' : (khi : ℝ) * 4^D ≤ ((sh : Int) : ℝ)^2 := by exact_mod_cast hsh
   have hB' : (B : ℝ) ≤ (Bq : ℝ) * 2^(P + ((gOf cs m2).length - 1) * D) := by exact_mod_cast hB
   have h4 : (0:ℝ) < 4^D := by positivity
   have hklo : (0:ℝ) ≤ klo := by
@@ -182,10 +181,10 @@ theorem piece_bound (cs : List ℚ) (m2 D P : ℕ) (C : List Int) (B sl : Int) (
   have hlow : (sl : ℝ) ≤ s := by
     have : (sl:ℝ)^2 ≤ s^2 := by rw [hss]; exact le_trans hsl' (by nlinarith)
     exact (pow_le_pow_iff_left₀ (by exact_mod_cast hsl0) hs0 (by norm_num)).mp this
-  have hhigh : s ≤ ((rest.getLast hne : Int) : ℝ) := by
-    have : s^2 ≤ ((rest.getLast hne : Int) : ℝ)^2 := by rw [hss]; exact le_trans (by nlinarith) hsh'
+  have hhigh : s ≤ ((sh : Int) : ℝ) := by
+    have : s^2 ≤ ((sh : Int) : ℝ)^2 := by rw [hss]; exact le_trans (by nlinarith) hsh'
     exact (pow_le_pow_iff_left₀ hs0 (by exact_mod_cast hsh0) (by norm_num)).mp this
-  have hmain := checkAll_sound C B sl rest hne hcert s hlow hhigh
+  have hmain := hrange s hlow hhigh
   rw [evalR_of_scaleOK D P _ C hscale, evalQ_scaled] at hmain
   have hsd : s / 2^D = t := by rw [hs]; field_simp
   rw [hsd, evalQ_gOf, htt, sqrt_pow_eq_rpow x hx0 m2] at hmain
@@ -197,6 +196,21 @@ theorem piece_bound (cs : List ℚ) (m2 D P : ℕ) (C : List Int) (B sl : Int) (
   have : K * |evalQ cs x - x ^ ((m2:ℝ)/2)| ≤ (Bq : ℝ) * K := le_trans hmain hB'
   have := le_of_mul_le_mul_left (by linarith [mul_comm (Bq:ℝ) K] : K * |evalQ cs x - x ^ ((m2:ℝ)/2)| ≤ K * (Bq:ℝ)) hKpos
   exact this
+
+
+/-- **Piece bound**: from an accepted certificate to a bound that holds for *every* real `x` in the
+knot interval `[klo, khi]`:  `|p(x) − x^(m2/2)| ≤ Bq`. -/
+theorem piece_bound (cs : List ℚ) (m2 D P : ℕ) (C : List Int) (B sl : Int) (rest : List Int)
+    (hne : rest ≠ []) (klo khi Bq : ℚ)
+    (hscale : scaleOK D P (gOf cs m2) C = true)
+    (hcert : checkAll C B (sl :: rest) = true)
+    (hsl0 : 0 ≤ sl) (hsl : ((sl : ℚ))^2 ≤ klo * 4^D)
+    (hsh0 : 0 ≤ rest.getLast hne) (hsh : khi * 4^D ≤ ((rest.getLast hne : Int) : ℚ)^2)
+    (hB : (B : ℚ) ≤ Bq * 2^(P + ((gOf cs m2).length - 1) * D))
+    (x : ℝ) (hx1 : (klo : ℝ) ≤ x) (hx2 : x ≤ (khi : ℝ)) :
+    |evalQ cs x - x ^ ((m2 : ℝ) / 2)| ≤ (Bq : ℝ) :=
+  piece_bound_of_range cs m2 D P C B sl (rest.getLast hne) klo khi Bq hscale
+    (fun s h1 h2 => checkAll_sound C B sl rest hne hcert s h1 h2) hsl0 hsl hsh0 hsh hB x hx1 hx2
 
 #print axioms piece_bound
 end Opda.PolyCheck
